@@ -24,6 +24,56 @@ type scanLoop struct {
 	last                *ssa.Parameter
 	cds                 map[*ssa.BasicBlock][]CtrlEdge
 	err                 string
+	stateNames          []string
+}
+
+// norm renames every value of type *SearchEngineState that findMatches handles to STATE, and the loop-carried scan variables to
+// OFF/LINE/COL/NUM, so that comparisons do not depend on the names of local variables.
+func (s *scanLoop) norm(str string) string {
+	for _, n := range s.stateNames {
+		str = strings.ReplaceAll(str, n, "STATE")
+	}
+	for _, p := range []struct {
+		phi  *ssa.Phi
+		name string
+	}{{s.off, "OFF"}, {s.line, "LINE"}, {s.col, "COL"}, {s.num, "NUM"}} {
+		if p.phi != nil {
+			str = strings.ReplaceAll(str, "φ"+p.phi.Comment, p.name)
+		}
+	}
+	for _, p := range []struct {
+		prm  *ssa.Parameter
+		name string
+	}{{s.skip, "SKIP"}, {s.take, "TAKE"}, {s.last, "LAST"}, {s.all, "ALL"}} {
+		if p.prm != nil {
+			str = replaceWord(str, p.prm.Name(), p.name)
+		}
+	}
+	return str
+}
+
+func replaceWord(s, w, by string) string {
+	var out strings.Builder
+	i := 0
+	isId := func(b byte) bool { return b == '_' || (b >= '0' && b <= '9') || (b >= 'a' && b <= 'z') || (b >= 'A' && b <= 'Z') || b >= 0x80 }
+	for i < len(s) {
+		j := strings.Index(s[i:], w)
+		if j < 0 {
+			out.WriteString(s[i:])
+			break
+		}
+		j += i
+		before := j == 0 || !isId(s[j-1])
+		after := j+len(w) >= len(s) || !isId(s[j+len(w)])
+		out.WriteString(s[i:j])
+		if before && after && (j == 0 || s[j-1] != '.') {
+			out.WriteString(by)
+		} else {
+			out.WriteString(w)
+		}
+		i = j + len(w)
+	}
+	return out.String()
 }
 
 func (c *Ctx) scanLoop() *scanLoop {
@@ -140,6 +190,21 @@ func (c *Ctx) scanLoop() *scanLoop {
 		return s
 	}
 	s.cds = NewPostDom(s.fn).ControlDeps()
+	// names under which the VM state appears in rendered expressions
+	stT := c.NamedType("engine", "SearchEngineState")
+	seen := map[string]bool{}
+	instrsOf(s.fn, func(in ssa.Instruction) {
+		if v, ok := in.(ssa.Value); ok && stT != nil {
+			if p, ok := v.Type().(*types.Pointer); ok && types.Identical(p.Elem(), stT) {
+				n := exprStr(v)
+				if !seen[n] {
+					seen[n] = true
+					s.stateNames = append(s.stateNames, n)
+				}
+			}
+		}
+	})
+	sort.Slice(s.stateNames, func(i, j int) bool { return len(s.stateNames[i]) > len(s.stateNames[j]) })
 	return s
 }
 
@@ -302,7 +367,8 @@ func ruleScanNonInterference(c *Ctx, rule string) {
 	}
 }
 
-// ruleWindow implements C04.R2.
+// ruleWindow implements C04.R2. All comparisons are made on normalised renderings (STATE, NUM, SKIP, TAKE, LAST) and on linear
+// normal forms, so that renamed locals, hoisted temporaries and inverted branches do not matter.
 func ruleWindow(c *Ctx, rule string) {
 	r := c.R
 	s := c.scanLoop()
@@ -323,117 +389,103 @@ func ruleWindow(c *Ctx, rule string) {
 			}
 		}
 	})
+	lits := func(b *ssa.BasicBlock) []string {
+		var out []string
+		for _, l := range s.iterConds(b) {
+			if s.loop[l.If.Block()] && !s.exitBranch(l.If) {
+				x := s.norm(l.String())
+				if x == "(len(STATE.currentMatch) > 0)" {
+					x = "(len(STATE.currentMatch) != 0)"
+				}
+				out = append(out, x)
+			}
+		}
+		sort.Strings(out)
+		return uniq(out)
+	}
 	ob := r.Ob(rule, "findMatches: a match is pushed exactly when it succeeded, is non-empty and matchNumber >= skip", c.pos(s.fn.Pos()))
 	if push == nil {
 		ob.Und("no Queue.Push call in the scan loop")
 	} else {
 		ob.Pos = c.pos(push.Pos())
-		var lits []string
-		for _, l := range s.iterConds(push.Block()) {
-			if s.loop[l.If.Block()] && !s.exitBranch(l.If) {
-				lits = append(lits, strings.ReplaceAll(l.String(), "φcurrentState", "currentState"))
-			}
-		}
-		sort.Strings(lits)
-		got := strings.Join(lits, " && ")
-		num := "φ" + s.num.Comment
-		wantSets := [][]string{
-			{"(" + num + " >= " + s.skip.Name() + ")", "(currentState.status == 0)", "(len(currentState.currentMatch) != 0)"},
-			{"(" + num + " >= " + s.skip.Name() + ")", "(currentState.status == 0)", "(len(currentState.currentMatch) > 0)"},
-		}
-		okW := false
-		for _, w := range wantSets {
-			sort.Strings(w)
-			if got == strings.Join(w, " && ") {
-				okW = true
-			}
-		}
-		// normalise the state variable name (phi of currentState)
-		gotN := strings.ReplaceAll(got, "φcurrentState", "currentState")
-		for _, w := range wantSets {
-			if gotN == strings.Join(w, " && ") {
-				okW = true
-			}
-		}
-		if okW {
-			ob.OKnt("push is control-dependent on [" + gotN + "]")
+		got := strings.Join(lits(push.Block()), " && ")
+		want := "(NUM >= SKIP) && (STATE.status == 0) && (len(STATE.currentMatch) != 0)"
+		if got == want {
+			ob.OKnt("push is control-dependent on [" + got + "]")
 		} else {
-			ob.Bad("push is control-dependent on [" + gotN + "]; expected exactly status == SUCCESS, len(currentMatch) != 0 and matchNumber >= skip")
+			ob.Bad("push is control-dependent on [" + got + "]; expected exactly [" + want + "]")
 		}
-		// the pushed value is MakeMatch(matchNumber + 1)
 		ob2 := r.Ob(rule, "findMatches: the pushed match is MakeMatch(matchNumber + 1)", c.pos(push.Pos()))
-		arg := exprStr(s.makeMatch.Call.Args[1])
+		arg := linearString(s.makeMatch.Call.Args[1], s.norm)
 		pushed := push.Call.Args[len(push.Call.Args)-1]
 		if pushed != ssa.Value(s.makeMatch) {
 			ob2.Bad("the value pushed is not the result of MakeMatch")
-		} else if arg != "("+num+" + 1)" {
-			ob2.Bad("MakeMatch is called with " + arg + ", expected " + num + " + 1 (1-based consecutive numbering that counts skipped matches)")
+		} else if arg != "+NUM +1" {
+			ob2.Bad("MakeMatch is called with [" + arg + "], expected the match counter + 1 (1-based consecutive numbering that counts skipped matches)")
 		} else {
-			ob2.OKnt("MakeMatch(" + arg + ")")
+			ob2.OKnt("MakeMatch(matchNumber + 1)")
 		}
 	}
 	ob3 := r.Ob(rule, "findMatches: the loop continues while all || matchNumber < skip+take", c.pos(s.header.Instrs[0].Pos()))
-	// exit tests governing the loop header
 	var hconds []string
-	for b := range s.loop {
-		if iff, ok := b.Instrs[len(b.Instrs)-1].(*ssa.If); ok && s.exitBranch(iff) {
-			pol := s.loop[b.Succs[0]] // condition value under which we stay
-			hconds = append(hconds, fmt.Sprintf("stay-if(%t) %s", pol, exprStr(iff.Cond)))
+	bound := false
+	var extra []string
+	for _, b := range s.fn.Blocks {
+		if !s.loop[b] {
+			continue
+		}
+		iff, ok := b.Instrs[len(b.Instrs)-1].(*ssa.If)
+		if !ok || !s.exitBranch(iff) {
+			continue
+		}
+		stayOnTrue := s.loop[b.Succs[0]]
+		desc := s.norm(exprStr(iff.Cond))
+		hconds = append(hconds, fmt.Sprintf("stay-if(%t) %s", stayOnTrue, desc))
+		if bo, ok := iff.Cond.(*ssa.BinOp); ok {
+			x, y := linearString(bo.X, s.norm), linearString(bo.Y, s.norm)
+			if (bo.Op == token.LSS && stayOnTrue || bo.Op == token.GEQ && !stayOnTrue) && x == "+NUM" && y == "+SKIP +TAKE" {
+				bound = true
+				continue
+			}
+			if (bo.Op == token.GTR && stayOnTrue || bo.Op == token.LEQ && !stayOnTrue) && y == "+NUM" && x == "+SKIP +TAKE" {
+				bound = true
+				continue
+			}
+		}
+		if strings.Contains(desc, "SKIP") || strings.Contains(desc, "TAKE") || strings.Contains(desc, "LAST") {
+			extra = append(extra, desc)
 		}
 	}
 	sort.Strings(hconds)
-	num := "φ" + s.num.Comment
-	want1 := fmt.Sprintf("stay-if(true) (%s < (%s + %s))", num, s.skip.Name(), s.take.Name())
-	found1, foundAll := false, false
-	for _, h := range hconds {
-		if h == want1 {
-			found1 = true
-		}
-		if h == "stay-if(true) "+s.all.Name() || h == "stay-if(false) !"+s.all.Name() {
-			foundAll = true
-		}
-	}
-	// `all ||` compiles to: if all goto body else test: the all-branch is not an exit branch; accept when the bound test exists and every other
-	// exit condition does not mention the window parameters
-	extra := []string{}
-	for _, h := range hconds {
-		if h != want1 && (strings.Contains(h, s.skip.Name()) || strings.Contains(h, s.take.Name()) || strings.Contains(h, s.last.Name())) {
-			extra = append(extra, h)
-		}
-	}
-	_ = foundAll
-	if found1 && len(extra) == 0 {
+	if bound && len(extra) == 0 {
 		ob3.OKnt("exit tests: " + strings.Join(hconds, " ; "))
 	} else {
-		ob3.Bad("loop exit tests are [" + strings.Join(hconds, " ; ") + "]; expected the bound `" + want1 + "` and no other test on skip/take/last")
+		ob3.Bad("loop exit tests are [" + strings.Join(hconds, " ; ") + "]; expected the bound `NUM < SKIP + TAKE` and no other test on skip/take/last")
 	}
 	ob4 := r.Ob(rule, "findMatches: Limit(last) follows every push when last != 0", c.pos(s.fn.Pos()))
 	if limit == nil {
 		ob4.Bad("no Queue.Limit call in the scan loop: `last n` is not applied")
 	} else if push != nil {
 		ob4.Pos = c.pos(limit.Pos())
-		var lits []string
-		pushLits := map[string]bool{}
-		for _, l := range s.iterConds(push.Block()) {
-			pushLits[l.String()] = true
+		pl := map[string]bool{}
+		for _, x := range lits(push.Block()) {
+			pl[x] = true
 		}
-		for _, l := range s.iterConds(limit.Block()) {
-			if !pushLits[l.String()] && s.loop[l.If.Block()] {
-				lits = append(lits, l.String())
+		var own []string
+		for _, x := range lits(limit.Block()) {
+			if !pl[x] {
+				own = append(own, x)
 			}
 		}
-		arg := exprStr(limit.Call.Args[len(limit.Call.Args)-1])
-		okL := len(lits) == 1 && (lits[0] == "("+s.last.Name()+" != 0)" || lits[0] == "("+s.last.Name()+" > 0)") && arg == s.last.Name() &&
+		arg := s.norm(exprStr(limit.Call.Args[len(limit.Call.Args)-1]))
+		okL := len(own) == 1 && (own[0] == "(LAST != 0)" || own[0] == "(LAST > 0)") && arg == "LAST" &&
 			(push.Block() == limit.Block() || push.Block().Dominates(limit.Block()))
 		if okL {
-			ob4.OKnt("Limit(" + arg + ") under [" + strings.Join(lits, " && ") + "] after the push")
+			ob4.OKnt("Limit(last) under [" + strings.Join(own, " && ") + "] after the push")
 		} else {
-			ob4.Bad(fmt.Sprintf("Limit(%s) is executed under the extra conditions %v (expected exactly `%s != 0` on top of the push conditions)", arg, lits, s.last.Name()))
+			ob4.Bad(fmt.Sprintf("Limit(%s) is executed under the extra conditions %v (expected exactly `last != 0` on top of the push conditions)", arg, own))
 		}
 	}
-	// Queue.Limit pops from the front
-	lim := c.Fn("ds", "Queue")
-	_ = lim
 	for fn := range c.allFns {
 		if fn.Name() == "Limit" && strings.Contains(fnName(fn), "ds.Queue[") && len(fn.Blocks) > 0 {
 			ob5 := r.Ob(rule, "ds.Queue.Limit drops from the front", c.pos(fn.Pos()))
@@ -479,18 +531,19 @@ func ruleScanDiscipline(c *Ctx, rule string) {
 		r.Ob(rule, "anchor: scan loop of engine.findMatches", "").Und(s.err)
 		return
 	}
+	selfName := map[*ssa.Phi]string{s.off: "OFF", s.line: "LINE", s.col: "COL", s.num: "NUM"}
+	resumeField := map[*ssa.Phi]string{s.off: "STATE.currentFileOffset", s.line: "STATE.currentLineNum", s.col: "STATE.currentColumnNum"}
 	classify := func(p *ssa.Phi, leaf ssa.Value) string {
-		str := exprStr(leaf)
-		str = strings.ReplaceAll(str, "φcurrentState", "currentState")
-		self := "φ" + p.Comment
+		str := linearString(leaf, s.norm)
+		self := selfName[p]
 		switch {
-		case p == s.off && str == "currentState.currentFileOffset", p == s.line && str == "currentState.currentLineNum", p == s.col && str == "currentState.currentColumnNum":
+		case resumeField[p] != "" && str == "+"+resumeField[p]:
 			return "resume"
-		case str == "("+self+" + 1)":
+		case str == "+"+self+" +1":
 			return "step"
-		case str == self:
+		case str == "+"+self:
 			return "keep"
-		case p == s.col && str == "1":
+		case p == s.col && str == "+1":
 			return "newline"
 		}
 		return "other:" + str
@@ -556,12 +609,12 @@ func ruleScanDiscipline(c *Ctx, rule string) {
 						var lits []string
 						for _, l := range s.iterConds(pred) {
 							if s.loop[l.If.Block()] && !s.exitBranch(l.If) {
-								lits = append(lits, strings.ReplaceAll(l.String(), "φcurrentState", "currentState"))
+								lits = append(lits, s.norm(l.String()))
 							}
 						}
 						if iff, ok := pred.Instrs[len(pred.Instrs)-1].(*ssa.If); ok && !s.exitBranch(iff) {
 							l := CondLit{iff.Cond, pred.Succs[0] == q.Block(), iff}
-							lits = append(lits, strings.ReplaceAll(l.String(), "φcurrentState", "currentState"))
+							lits = append(lits, s.norm(l.String()))
 						}
 						sort.Strings(lits)
 						res = append(res, strings.Join(uniq(lits), " && "))
@@ -578,7 +631,7 @@ func ruleScanDiscipline(c *Ctx, rule string) {
 		}
 		return res, found
 	}
-	want := "(currentState.status == 0) && (len(currentState.currentMatch) != 0)"
+	want := "(STATE.status == 0) && (len(STATE.currentMatch) != 0)"
 	var problems []string
 	for _, pk := range []struct {
 		p    *ssa.Phi
@@ -590,6 +643,7 @@ func ruleScanDiscipline(c *Ctx, rule string) {
 			continue
 		}
 		for _, g := range gs {
+			g = strings.ReplaceAll(g, "(len(STATE.currentMatch) > 0)", "(len(STATE.currentMatch) != 0)")
 			if g != want {
 				problems = append(problems, fmt.Sprintf("%s of %s happens under [%s], expected [%s]", pk.kind, pk.p.Comment, g, want))
 			}
@@ -605,8 +659,8 @@ func ruleScanDiscipline(c *Ctx, rule string) {
 	nl := false
 	instrsOf(s.fn, func(in ssa.Instruction) {
 		if iff, ok := in.(*ssa.If); ok && s.loop[iff.Block()] {
-			str := exprStr(iff.Cond)
-			if strings.Contains(str, "ReadAt(1, φ"+s.off.Comment+")") && strings.Contains(str, "10") {
+			str := s.norm(exprStr(iff.Cond))
+			if strings.Contains(str, "ReadAt(1, OFF)") && strings.Contains(str, "10") {
 				nl = true
 			}
 		}
